@@ -759,8 +759,13 @@ func c14NoDroppedEntry(c *Ctx, r *Report, rule string) {
 					}
 					// the loop this append belongs to: a range/index loop over an exported field of the same struct
 					var header ssa.Instruction
+					// (the innermost loop around the append: its header dominates the append, the append can come
+					// back to it, and every other such header dominates it)
 					for _, hb := range h.Blocks {
-						if !hb.Dominates(b) || !inLoop(hb) {
+						if !hb.Dominates(b) || !inLoop(hb) || !reachableFrom(b, false)[hb] {
+							continue
+						}
+						if header != nil && !header.Block().Dominates(hb) {
 							continue
 						}
 						for _, hin := range hb.Instrs {
@@ -768,7 +773,7 @@ func c14NoDroppedEntry(c *Ctx, r *Report, rule string) {
 							case *ssa.Next:
 								header = hx
 							case *ssa.If:
-								if len(hb.Preds) >= 2 && header == nil {
+								if len(hb.Preds) >= 2 && (header == nil || header.Block() != hb) {
 									header = hx
 								}
 							}
